@@ -77,7 +77,7 @@ def gen_case(rng):
         for a in rng.sample(assets, rng.randint(2, n)):
             seed_holdings[a] = q0
     fee = ['zero'] if rng.random() < 0.5 else ['pct', rng.choice([0.001, 0.01]), rng.choice([0.0, 0.005])]
-    return {'via_qts': rng.random() < 0.5, 'assets': assets, 'long_only': long_only, 'buffer': rng.choice([0.0, 0.05, 0.3]),
+    return {'via_qts': rng.random() < 0.5, 'static_universe_object': rng.random() < 0.3, 'assets': assets, 'long_only': long_only, 'buffer': rng.choice([0.0, 0.05, 0.3]),
             'leverage': rng.choice([0.5, 1.0, 2.0]), 'fee': fee,
             'cash': float(rng.choice([1e7, 2.5e7, 1e8])) if calm else float(rng.choice([1e5, 1e6, 2.5e7])),
             'seed_holdings': {} if calm else seed_holdings, 'steps': steps, 'calm': calm,
@@ -115,6 +115,13 @@ def run_case(case, acc, report_prop='C09'):
         broker.submit_order('P', Order(t, a, q))
     broker.update(t)
     uni, alpha = StepUniverse(), StepAlpha()
+    configured = None
+    if case.get('static_universe_object'):
+        # one real StaticUniverse object serves every rebalance of the case (its membership is what it was built with)
+        from qstrader.asset.universe.static import StaticUniverse
+        configured = list(case['steps'][0]['universe'])
+        uni = StaticUniverse(list(configured))
+        acc.count('C09:cases_on_one_static_universe_object')
     if case['long_only']:
         sizer = DollarWeightedCashBufferedOrderSizer(broker, 'P', book, cash_buffer_percentage=case['buffer'])
     else:
@@ -141,7 +148,8 @@ def run_case(case, acc, report_prop='C09'):
             for a, q in st['quotes'].items():
                 book.set(a, *q)
             broker.update(t)
-            uni.assets = list(st['universe'])
+            if configured is None:
+                uni.assets = list(st['universe'])
             alpha.w = dict(st['weights'])
             n_before = len(tr.pcm)
             try:
@@ -165,6 +173,8 @@ def run_case(case, acc, report_prop='C09'):
                                 'held %s) and no portfolio construction took place' % (
                                     i, st['universe'], {a: d['quantity'] for a, d in broker.get_portfolio_as_dict('P').items()}), {})
             rec = tr.pcm[-1]
+            if configured is not None:
+                rec['universe'] = list(configured)        # judged against the universe as configured, not as the object now answers
             # working out the orders does not change what the broker reports as held (read before anything is submitted
             # or the clock moves on): the same assets and quantities as the portfolio's own report, no zero entries
             rep = {a: d['quantity'] for a, d in broker.get_portfolio_as_dict('P').items()}
